@@ -94,7 +94,34 @@ def k_asyncgen_aclose(inner):
         await a.asend(None)
         await a.aclose()
     return outer
-KINDS = [k_await_coro, k_await_gencoro, k_obj_await_wrapper, k_obj_await_gen, k_asyncgen_anext, k_asyncgen_asend, k_asyncgen_athrow, k_asyncgen_aclose]
+def k_async_with_exit(inner):
+    # the chain continues inside a manager's __aexit__: the frame holding the `async with` is suspended in the EXIT of its block
+    class M:
+        async def __aenter__(s): return s
+        async def __aexit__(s, *a): await inner()
+    async def outer():
+        x = 1
+        async with M() as m:
+            x = 2
+        return x
+    return outer
+def k_async_with_enter(inner):
+    class M:
+        async def __aenter__(s): await inner(); return s
+        async def __aexit__(s, *a): return False
+    async def outer():
+        async with M() as m:
+            pass
+    return outer
+KINDS = [k_await_coro, k_await_gencoro, k_obj_await_wrapper, k_obj_await_gen, k_asyncgen_anext, k_asyncgen_asend, k_asyncgen_athrow, k_asyncgen_aclose,
+         k_async_with_exit, k_async_with_enter]
+if sys.version_info < (3, 12):
+    # CPython <= 3.11: an exception thrown into a coroutine that awaits ag.athrow(...) / ag.aclose() is raised in the async
+    # generator's own frame WITHOUT unwinding the awaits inside it (observed on 3.9.18, 3.10.13, 3.11.7: traceback [outer, ag] where 3.12 gives
+    # [outer, ag, t, trap]); the library reports the inner frames on every version.  The oracle of this leg (the traceback of a
+    # thrown exception) therefore cannot be used for these two link kinds on old interpreters: they are left out there and the
+    # discrepancy is recorded as observation F18 in DESIGN.md.
+    KINDS = [k for k in KINDS if k not in (k_asyncgen_athrow, k_asyncgen_aclose)]
 def end_trap():
     async def t(): await trap()
     return t
@@ -143,8 +170,8 @@ for depth in range(0, 4 if THOROUGH else 3):
                 continue
             s2 = stackscope.extract(co, with_contexts=False)
             got = [f.pyframe for f in s.frames]; lines = [f.lineno for f in s.frames]
-            if [f.pyframe for f in s2.frames] != got:
-                leg.violation(key, "with_contexts on/off give different frames")
+            if [f.pyframe for f in s2.frames] != got or [f.lineno for f in s2.frames] != lines:
+                leg.violation(key, "with_contexts on/off give different frames / line numbers")
             if s.root is not co:
                 leg.violation(key, "root is not x")
             try: co.throw(Probe())
